@@ -206,7 +206,7 @@ def execute(sc, choices=None, lenient=False):
             def cb():
                 sim.point('cb')
                 cb_runs.setdefault(name, []).append(
-                    (sim.stamp(), coord.status, coord._done_event.is_set()))
+                    (sim.stamp(), coord.status, getattr(coord._done_event, "is_set", lambda: None)()))
                 if raises:
                     raise _E(900 + cbn[0])
             return cb
